@@ -41,6 +41,8 @@ VIEWS[MC + ":ListMatcher"] = v_list()
 
 
 def register(R, tier="quick"):
+    register_base(R)
+
     def mk(I, **kw):
         ids = SymList(z3.Array(I.fresh_name("ids"), IntS, IntS), z3.Int(I.fresh_name("nids")), "list")
         return {"self": Obj(I.repo.klass(MC, "ListMatcher"), {"_ids": ids, "_i": z3.Int("_i"), "_weights": None, "_all_weights": None,
@@ -81,3 +83,27 @@ def register(R, tier="quick"):
                ensures=["minv(self)", "behind_free(self)"], modifies=["self._i"],
                canaries=[Canary("does-not-rewind", "self._i = 0", "pass")],
                note="reset() returns to the first entry")
+
+
+def register_base(R):
+    """The default Matcher.skip_to (step until the target) over ANY matcher satisfying the cursor interface: used by the
+    matchers that do not override it (NestedChildMatcher inside a group, span matchers' children, custom matchers)."""
+    from pyvc.theories.cursor import Cursor
+
+    def mk(I):
+        return {"self": Cursor(I, "m"), "id": z3.Int("id")}
+
+    R.contract(MC + ":Matcher.skip_to", props=["C11"], setup=mk,
+               requires=["minv(self)"],
+               ensures=["minv(self)", "wfpos(self)",
+                        "implies(id <= old(pos(self)), pos(self) == old(pos(self)))",
+                        "implies(id > old(pos(self)), (pos(self) >= id or pos(self) == INF) and "
+                        "forall(lambda s: implies(mem(self, s) and s >= id, s >= pos(self))))"],
+               modifies=["self"],
+               loops={0: LoopSpec(inv=["minv(self)", "wfpos(self)", "pos(self) >= old(pos(self))",
+                                       "implies(id <= old(pos(self)), pos(self) == old(pos(self)))",
+                                       "forall(lambda s: implies(mem(self, s) and s >= id and s >= old(pos(self)), s >= pos(self)))"],
+                                  modifies=["self"])},
+               canaries=[Canary("passes-the-target", "self.id() < id", "self.id() <= id")],
+               note="the inherited skip_to(t): steps with next() until the id reaches t - lands on the first entry >= t, does "
+                    "not move when t is not beyond the current id")
